@@ -11,33 +11,6 @@ use core::ptr::NonNull;
 
 pub const SENTINEL: u8 = 0xEE;
 
-/// A window of 32 bytes with a CONCRETE base pointer inside a chunk, through which single bytes at symbolic
-/// offsets are written/read by case split (see `common::poke`).
-#[derive(Clone, Copy)]
-pub struct Win {
-    base: *mut u8,
-    lo: usize,
-}
-
-impl Win {
-    /// the window covering the bump side of a chunk's content range
-    pub fn of<A, St: BumpAllocatorSettings>(c: bump_scope::stats::Chunk<'_, A, St>) -> Win {
-        let (s, e) = (c.content_start().as_ptr(), c.content_end().as_ptr());
-        let cap = e as usize - s as usize;
-        let base = if St::UP || cap <= 32 { s } else { unsafe { e.sub(32) } };
-        Win { base, lo: base as usize }
-    }
-    pub fn holds(&self, addr: usize) -> bool {
-        addr >= self.lo && addr < self.lo + 32
-    }
-    pub unsafe fn write(&self, addr: usize, v: u8) {
-        unsafe { poke(self.base, addr - self.lo, v) }
-    }
-    pub unsafe fn read(&self, addr: usize) -> u8 {
-        unsafe { peek(self.base, addr - self.lo) }
-    }
-}
-
 #[derive(Clone, Copy, PartialEq, Eq)]
 pub enum Entry {
     Bump,
@@ -47,7 +20,7 @@ pub enum Entry {
 }
 
 /// `budget_for_op`: 0 => the operation must cope without a new chunk (failure path), 1 => it may create chunk 2.
-pub fn step<A, St, const COHERENT: bool, const OPS: u8>(entry: Entry, budget_for_op: usize, header_size: usize)
+pub fn step<A, St, const COHERENT: bool, const OPS: u8, const NSIZE: usize, const NALIGN: usize>(entry: Entry, budget_for_op: usize, header_size: usize)
 where
     A: BaseAllocator<St::GuaranteedAllocated> + Default,
     St: BumpAllocatorSettings,
@@ -100,8 +73,11 @@ where
     // the step
     // OPS: bit k set => operation k is in this harness's symbolic choice
     let op: u8 = kani::any();
-    kani::assume(op < 6 && (OPS >> op) & 1 == 1);
-    let ln = any_layout(16, 4);
+    kani::assume(op < 7 && (OPS >> op) & 1 == 1);
+    // NSIZE = 0: the new layout is symbolic, L(<=16, <=16). NSIZE > 0: a concrete layout that cannot fit in the 16-byte
+    // chunk, so that the chunk switch is certain and the requested chunk size is a constant (DESIGN.md 2.5/2.8)
+    let split_k: usize = kani::any();
+    let ln = if NSIZE == 0 { any_layout(16, 4) } else { Layout::from_size_align(NSIZE, NALIGN).unwrap() };
     set_budget(budget_for_op);
     let calls_before = calls();
     let r: Result<NonNull<[u8]>, AllocError> = unsafe {
@@ -124,6 +100,15 @@ where
                 } else if OPS & 32 != 0 && op == 5 {
                     al.deallocate(b, lb);
                     al.allocate(ln)
+                } else if OPS & 64 != 0 && op == 6 {
+                    // split B into two live sub-blocks and give back the one on the bump side; the other one stays live
+                    kani::assume(split_k > 0 && split_k < lb.size());
+                    if St::UP {
+                        al.deallocate(NonNull::new_unchecked(b.as_ptr().add(split_k)), Layout::from_size_align_unchecked(lb.size() - split_k, 1));
+                    } else {
+                        al.deallocate(b, Layout::from_size_align_unchecked(split_k, 1));
+                    }
+                    al.allocate(ln)
                 } else {
                     kani::assume(false);
                     Err(AllocError)
@@ -138,7 +123,15 @@ where
         }
     };
     set_budget(0);
-    let b_live = op < 2; // B is still live only when the op did not reallocate / deallocate it
+    // the part of B that is still live after the operation: all of it (allocate*), the part that was kept (split), nothing
+    let (bl_addr, bl_len) = if op < 2 {
+        (addr(b), lb.size())
+    } else if op == 6 {
+        if St::UP { (addr(b), split_k) } else { (addr(b) + split_k, lb.size() - split_k) }
+    } else {
+        (0, 0)
+    };
+    let b_live = bl_len > 0;
     let realloc = op >= 2 && op <= 4;
 
     // witnesses; "[tag]" covers are required only of harnesses registered with that tag
@@ -149,6 +142,7 @@ where
     kani::cover!(r.is_ok() && op == 4 && ln.size() < lb.size(), "[op4] shrink ok");
     kani::cover!(r.is_ok() && op == 4 && addr(r.unwrap().cast()) != addr(b), "[op4-unfit] shrink moved the block");
     kani::cover!(r.is_ok() && op == 5, "[op5] deallocate then allocate ok");
+    kani::cover!(r.is_ok() && op == 6 && ln.size() > 0, "[op6] allocated after giving back one half of a split block");
     kani::cover!(r.is_ok() && bump.stats().count() == 2, "[b1] operation created a second chunk");
 
     // C02: A is never disturbed, whatever happened
@@ -163,7 +157,7 @@ where
     match r {
         Err(_) => {
             // C07: state intact, B still there (for ops that do not give it up before failing)
-            if op != 5 {
+            if op != 5 && op != 6 {
                 if lb.size() > 0 {
                     assert!(unsafe { w1.read(addr(b) + ib) } == vb, "C07/C02: bytes of B changed by a failed operation");
                 }
@@ -194,8 +188,8 @@ where
             }
             assert!(disjoint(addr(n), ln.size(), addr(a), la.size()), "C01: block overlaps a live block (A)");
             if b_live {
-                assert!(disjoint(addr(n), ln.size(), addr(b), lb.size()), "C01: block overlaps a live block (B)");
-                if lb.size() > 0 {
+                assert!(disjoint(addr(n), ln.size(), bl_addr, bl_len), "C01: block overlaps a live block (B, or the part of B that was kept)");
+                if addr(b) + ib >= bl_addr && addr(b) + ib < bl_addr + bl_len {
                     assert!(unsafe { w1.read(addr(b) + ib) } == vb, "C02: bytes of a live block (B) changed");
                 }
             }
@@ -247,6 +241,7 @@ where
                         assert!(allocated_after >= allocated_before, "C13: shrink decreased the allocated byte count although shrinking is off");
                     }
                 }
+                6 => {}
                 _ => {
                     if !St::DEALLOCATES || entry == Entry::NoDealloc {
                         assert!(allocated_after >= allocated_before, "C13: deallocate changed the allocated byte count although deallocation is off");
@@ -274,12 +269,23 @@ macro_rules! step_harness {
         #[kani::unwind(6)]
         #[kani::stub(std::alloc::handle_alloc_error, crate::stubs::hae_stub)]
         fn $name() {
-            step::<$A, $S, $coh, $ops>($entry, $budget, $hdr);
+            step::<$A, $S, $coh, $ops, 0, 1>($entry, $budget, $hdr);
         }
     };
 }
 
-const ALL: u8 = 0b111111;
+macro_rules! step_switch_harness {
+    ($name:ident, $A:ty, $S:ty, $entry:expr, $hdr:expr, $ops:expr, $nsize:literal, $nalign:literal) => {
+        #[kani::proof]
+        #[kani::unwind(6)]
+        #[kani::stub(std::alloc::handle_alloc_error, crate::stubs::hae_stub)]
+        fn $name() {
+            step::<$A, $S, false, $ops, $nsize, $nalign>($entry, 1, $hdr);
+        }
+    };
+}
+
+const ALL: u8 = 0b1111111;
 // budget 0: the operation has to cope inside the first chunk or fail (all six operations in one query)
 step_harness!(step_up1_bump_b0, VA, S<1, true>, Entry::Bump, 0, 32, ALL);
 step_harness!(step_down1_bump_b0, VA, S<1, false>, Entry::Bump, 0, 32, ALL);
@@ -293,10 +299,13 @@ step_harness!(step_down1_noshrink_b0, VA, S<1, false>, Entry::NoShrink, 0, 32, A
 // settings opt-outs
 step_harness!(step_up1_set_nodealloc_b0, VA, S<1, true, true, false, true>, Entry::Bump, 0, 32, ALL);
 step_harness!(step_down1_set_noshrink_b0, VA, S<1, false, true, true, false>, Entry::Bump, 0, 32, ALL);
-// budget 1: the operation may create chunk 2 (one operation kind per query)
-step_harness!(step_up1_bump_b1_alloc, VA, S<1, true>, Entry::Bump, 1, 32, 0b000011);
-step_harness!(step_up1_bump_b1_grow, VA, S<1, true>, Entry::Bump, 1, 32, 0b001100);
-step_harness!(step_up1_bump_b1_shrink, VA, S<1, true>, Entry::Bump, 1, 32, 0b010000);
-step_harness!(step_down1_bump_b1_alloc, VA, S<1, false>, Entry::Bump, 1, 32, 0b000011);
-step_harness!(step_down1_bump_b1_grow, VA, S<1, false>, Entry::Bump, 1, 32, 0b001100);
-step_harness!(step_down1_bump_b1_shrink, VA, S<1, false>, Entry::Bump, 1, 32, 0b010000);
+step_harness!(step_up1_set_noshrink_b0, VA, S<1, true, true, true, false>, Entry::Bump, 0, 32, ALL);
+step_harness!(step_down4_bump_b0, VA, S<4, false>, Entry::Bump, 0, 32, ALL);
+// budget 1 and a request that cannot fit: the operation creates chunk 2 (symbolic pre-state, concrete request)
+step_switch_harness!(step_up1_switch_alloc, VA, S<1, true>, Entry::Bump, 32, 0b1100011, 24, 8);
+step_switch_harness!(step_up1_switch_grow, VA, S<1, true>, Entry::Bump, 32, 0b001100, 20, 4);
+step_switch_harness!(step_up1_switch_shrink_unfit, VA, S<1, true>, Entry::Bump, 32, 0b010000, 8, 16);
+step_switch_harness!(step_down1_switch_alloc, VA, S<1, false>, Entry::Bump, 32, 0b1100011, 24, 8);
+step_switch_harness!(step_down1_switch_grow, VA, S<1, false>, Entry::Bump, 32, 0b001100, 20, 4);
+step_switch_harness!(step_down8_switch_alloc, VA, S<8, false>, Entry::Bump, 32, 0b000011, 18, 1);
+step_switch_harness!(step_up4_switch_grow_noshrink, VA, S<4, true>, Entry::NoShrink, 32, 0b001100, 24, 2);
